@@ -133,8 +133,16 @@ impl Cache for MemoryStore {
 
     fn flush(&self, header: CacheMetaData) {
         if header.time_to_live > 0 {
+            let now = self.timer.timestamp();
+            let deadline = now + header.time_to_live as u64;
             self.memory.alter_all(|_key, mut value| {
-                value.header.time_to_live = header.time_to_live;
+                // only ever shorten an item's life: keep its own expiry when
+                // that comes before the flush deadline
+                let own_expiry = value.header.timestamp + value.header.time_to_live as u64;
+                if value.header.time_to_live == 0 || own_expiry > deadline {
+                    value.header.timestamp = now;
+                    value.header.time_to_live = header.time_to_live;
+                }
                 value
             });
         } else {
